@@ -1,6 +1,6 @@
 #!/bin/bash
 # usage: seedtest.sh <dir with patch.diff [demo.py]> <Cxx> [tier]   -- applies the seeded change to /repo, runs demo + check, reverts.
-d=$1; prop=$2; tier=${3:-quick}
+d=$(realpath "$1"); prop=$2; tier=${3:-quick}
 cd /repo || exit 2
 if ! git diff --quiet; then echo "/repo dirty"; exit 2; fi
 if ! git apply --check "$d/patch.diff" 2>/dev/null; then
